@@ -349,7 +349,15 @@ func replayMain(t *testing.T) {
 			}
 		}
 	} else {
-		v = ck.Eval(t, c, NewStats(), relax)
+		// a case with a real-thread phase (C18 "par") overlaps two free-running goroutines: as for the
+		// real-thread supplement of C11 a replay gets several attempts to meet the overlap again
+		tries := 1
+		if c.Param("par", 0) > 0 {
+			tries = 10
+		}
+		for i := 0; i < tries && v == nil; i++ {
+			v = ck.Eval(t, c, NewStats(), relax)
+		}
 	}
 	res := replayResult{V: v}
 	if v != nil && c.Expect != nil && v.Oracle == c.Expect.Oracle {
